@@ -31,8 +31,11 @@ struct Case {
     kind_tag: String,
 }
 
+/// every kind x context, once with in-range numbers and three times with out-of-range numbers
+/// (rejected by the parser today; accepted — and then run — if a range check is ever relaxed)
+const SYS_VARIANTS: usize = 4;
 fn systematic_count() -> u64 {
-    (ALL_KINDS.len() * CONTEXTS.len()) as u64
+    (ALL_KINDS.len() * CONTEXTS.len() * SYS_VARIANTS) as u64
 }
 
 fn wrap_in_context(rng: &mut Rng, ctxname: &str, act: &str, k: K) -> String {
@@ -93,8 +96,10 @@ fn make_case(ctx: &Ctx, idx: u64) -> Case {
     let nsys = systematic_count();
     let (cfg, mapped, tag): (String, Vec<u16>, String) = if idx < nsys {
         // systematic core: every action kind in every context (parameters vary with the seed)
-        let k = ALL_KINDS[(idx as usize) / CONTEXTS.len()];
-        let cx = CONTEXTS[(idx as usize) % CONTEXTS.len()];
+        let variant = (idx as usize) % SYS_VARIANTS;
+        let kc = (idx as usize) / SYS_VARIANTS;
+        let k = ALL_KINDS[kc / CONTEXTS.len()];
+        let cx = CONTEXTS[kc % CONTEXTS.len()];
         let mut p = profile().only(&[k, K::Key]);
         p.vkeys = 2;
         let act = {
@@ -103,6 +108,9 @@ fn make_case(ctx: &Ctx, idx: u64) -> Case {
             g.out.layers = vec!["l0".into(), "l1".into()];
             g.out.vkeys = vec!["v0".into(), "v1".into()];
             g.preset_vkeys_defined(2);
+            if variant > 0 {
+                g.force_out_of_range();
+            }
             if k == K::ChordV1 {
                 g.preset_chord_group("cg0", &["k0", "k1"]);
             }
@@ -117,7 +125,7 @@ fn make_case(ctx: &Ctx, idx: u64) -> Case {
             a
         };
         let cfg = wrap_in_context(&mut rng, cx, &act, k);
-        (cfg, vec![osc("a"), osc("b"), osc("c")], format!("sys:{}:{}", k.name(), cx))
+        (cfg, vec![osc("a"), osc("b"), osc("c")], format!("sys:{}:{}:{}", k.name(), cx, if variant > 0 { "oor" } else { "ok" }))
     } else {
         let p = profile();
         let g = gen::generate(&mut rng, &p);
@@ -224,5 +232,8 @@ impl Check for C02Check {
     }
     fn watchdog_s(&self, _ctx: &Ctx) -> u64 {
         30
+    }
+    fn all_lanes_below(&self, _ctx: &Ctx) -> u64 {
+        systematic_count()
     }
 }
